@@ -216,3 +216,256 @@ Section Reg.
       + auto.
   Qed.
 End Reg.
+
+(* ============================================================================================ *)
+(* the grid *)
+
+Lemma enumerate_from_in {A} : forall (l : list A) s i a,
+  In (i, a) (enumerate_from s l) <->
+  exists j : nat, i = s + Z.of_nat j /\ nth_error l j = Some a.
+Proof.
+  induction l as [|b r IH]; intros s i a; cbn.
+  - split; [intros []|]. intros [j [_ H]]. destruct j; discriminate.
+  - rewrite IH. split.
+    + intros [H|[j [-> Hj]]].
+      * inversion H; subst. exists O. split; [lia|reflexivity].
+      * exists (S j). split; [lia|exact Hj].
+    + intros [[|j] [-> Hj]].
+      * left. cbn in Hj. inversion Hj. f_equal. lia.
+      * right. exists j. split; [lia|exact Hj].
+Qed.
+
+Lemma nodup_map_inj {A B} (f : A -> B) : forall l a b,
+  NoDup (map f l) -> In a l -> In b l -> f a = f b -> a = b.
+Proof.
+  induction l as [|x r IH]; intros a b Hnd Ha Hb E; [destruct Ha|].
+  cbn in Hnd. inversion Hnd as [|? ? Hn Hr]; subst.
+  destruct Ha as [->|Ha], Hb as [->|Hb].
+  - reflexivity.
+  - exfalso. apply Hn. rewrite E. apply in_map, Hb.
+  - exfalso. apply Hn. rewrite <- E. apply in_map, Ha.
+  - apply IH; assumption.
+Qed.
+
+Definition mk_task (s : strategy) (d : dataset) (ff : Z * fold) : task :=
+  {| ts := fst s; td := d_name d; tf := fst ff; tparam := snd s; trows := d_rows d;
+     ttrain := fst (snd ff); ttest := snd (snd ff) |}.
+
+Lemma in_tasks_of strats data t :
+  In t (tasks_of strats data) <->
+  exists d s ff, In d data /\ In s strats /\ In ff (enumerate_from 0 (d_folds d)) /\ t = mk_task s d ff.
+Proof.
+  unfold tasks_of. rewrite in_flat_map. split.
+  - intros [d [Hd H]]. apply in_flat_map in H. destruct H as [s [Hs H]]. apply in_map_iff in H.
+    destruct H as [ff [<- Hff]]. exists d, s, ff. auto.
+  - intros [d [s [ff [Hd [Hs [Hff ->]]]]]]. exists d. split; [exact Hd|]. apply in_flat_map.
+    exists s. split; [exact Hs|]. apply in_map_iff. exists ff. split; [reflexivity|exact Hff].
+Qed.
+
+(* unique strategy names (validated by the Orchestrator) and unique dataset names give pairwise
+   different task keys *)
+Lemma tasks_of_distinct strats data :
+  NoDup (map fst strats) -> NoDup (map d_name data) -> distinct (tasks_of strats data).
+Proof.
+  intros Hs Hd t t' Ht Ht' Hk.
+  apply in_tasks_of in Ht. destruct Ht as [d [s [[f fo] [Hd1 [Hs1 [Hf1 ->]]]]]].
+  apply in_tasks_of in Ht'. destruct Ht' as [d' [s' [[f' fo'] [Hd2 [Hs2 [Hf2 ->]]]]]].
+  unfold tkey, mk_task in Hk. cbn in Hk. inversion Hk as [[E1 E2 E3]].
+  assert (s = s') by (apply (nodup_map_inj fst strats); assumption).
+  assert (d = d') by (apply (nodup_map_inj d_name data); assumption).
+  subst s' d' f'. apply enumerate_from_in in Hf1, Hf2.
+  destruct Hf1 as [j [Hj Hn]]. destruct Hf2 as [j' [Hj' Hn']].
+  assert (j = j') by lia. subst j'. rewrite Hn in Hn'. inversion Hn'. reflexivity.
+Qed.
+
+Lemma task_exists strats data s d f :
+  In s strats -> In d data -> 0 <= f < Z.of_nat (length (d_folds d)) ->
+  exists t, In t (tasks_of strats data) /\ ts t = fst s /\ td t = d_name d /\ tf t = f.
+Proof.
+  intros Hs Hd Hf.
+  destruct (nth_error (d_folds d) (Z.to_nat f)) as [fo|] eqn:E.
+  - exists (mk_task s d (f, fo)). split; [|cbn; auto].
+    apply in_tasks_of. exists d, s, (f, fo). split; [exact Hd|]. split; [exact Hs|]. split; [|reflexivity].
+    apply enumerate_from_in. exists (Z.to_nat f). split; [lia|exact E].
+  - apply nth_error_None in E. lia.
+Qed.
+
+Section Load.
+  Variable fitf : Z -> list row -> Z.
+  Variable predf : Z -> Z -> Z -> Z.
+  Notation run := (run fitf predf).
+  Notation expect := (expect fitf predf).
+
+  (* reading back after an uninterrupted run over a grid with a new results object (the situation
+     of a resumed or repeated benchmark): load_predictions succeeds for every fold and requested
+     part, returns one record for every strategy x dataset of the grid, and each is exactly what
+     fit-then-predict on that fold gives *)
+  Lemma load_after_run hdd fl strats data st st' ev out f it :
+    legal hdd fl -> NoDup (map fst strats) -> NoDup (map d_name data) ->
+    honest fitf predf (tasks_of strats data) (sfiles st) ->
+    snames st = [] -> dnames st = [] ->
+    (forall ms md, master st = Some (ms, md) -> incl ms (map fst strats) /\ incl md (map d_name data)) ->
+    run hdd fl None (tasks_of strats data) st = (st', ev, out) ->
+    requested fl it = true ->
+    (forall d, In d data -> 0 <= f < Z.of_nat (length (d_folds d))) ->
+    exists recs,
+      load st' f it = Some recs /\
+      (forall s d c, In (s, d, c) recs ->
+         exists t, In t (tasks_of strats data) /\ tkey t it = (s, d, f, it) /\ c = expect t it) /\
+      (forall s d, In s strats -> In d data -> exists c, In (fst s, d_name d, c) recs).
+  Proof.
+    intros Hleg Hns Hnd Hh Hsn Hdn Hmaster H Hr Hf.
+    set (l := tasks_of strats data) in *.
+    pose proof (tasks_of_distinct strats data Hns Hnd) as Hdist. fold l in Hdist.
+    pose proof (run_records fitf predf _ _ _ _ _ _ _ Hleg Hdist Hh H) as Hrec.
+    destruct (run_registry fitf predf _ _ _ _ _ _ _ Hleg H) as [_ [Hreg [_ [Hs Hd]]]].
+    assert (Hgrid : forall s d, In s (snames st') -> In d (dnames st') ->
+              exists t, In t l /\ tkey t it = (s, d, f, it)).
+    { intros s d Hs1 Hd1.
+      assert (In s (map fst strats)) as Hs2.
+      { destruct (Hs s Hs1) as [P|[[ms [md [P Q]]]|[t [P ->]]]].
+        - rewrite Hsn in P. destruct P.
+        - apply (proj1 (Hmaster ms md P)), Q.
+        - apply in_tasks_of in P. destruct P as [d0 [s0 [ff [_ [P [_ ->]]]]]]. cbn [ts mk_task]. apply in_map, P. }
+      assert (In d (map d_name data)) as Hd2.
+      { destruct (Hd d Hd1) as [P|[[ms [md [P Q]]]|[t [P ->]]]].
+        - rewrite Hdn in P. destruct P.
+        - apply (proj2 (Hmaster ms md P)), Q.
+        - apply in_tasks_of in P. destruct P as [d0 [s0 [ff [P [_ [_ ->]]]]]]. cbn [td mk_task]. apply in_map, P. }
+      apply in_map_iff in Hs2. destruct Hs2 as [s0 [<- Hs0]].
+      apply in_map_iff in Hd2. destruct Hd2 as [d0 [<- Hd0]].
+      destruct (task_exists strats data s0 d0 f Hs0 Hd0 (Hf d0 Hd0)) as [t [A [B [C D]]]].
+      exists t. split; [exact A|]. unfold tkey. rewrite B, C, D. reflexivity. }
+    destruct (load st' f it) as [recs|] eqn:El.
+    - exists recs. split; [reflexivity|]. destruct (load_spec _ _ _ _ El) as [Hkeys Hget]. split.
+      + intros s d c Hin.
+        assert (In (s, d) (list_prod (snames st') (dnames st'))) as Hp.
+        { rewrite <- Hkeys. apply (in_map fst recs (s, d, c)), Hin. }
+        apply in_prod_iff in Hp. destruct Hp as [P Q].
+        destruct (Hgrid s d P Q) as [t [A B]]. exists t. split; [exact A|]. split; [exact B|].
+        specialize (Hrec t it A Hr). rewrite B in Hrec. rewrite (Hget s d c Hin) in Hrec. congruence.
+      + intros s d Hs0 Hd0.
+        destruct (task_exists strats data s d f Hs0 Hd0 (Hf d Hd0)) as [t [A [B [C D]]]].
+        destruct (Hreg t A) as [P Q]. rewrite B in P. rewrite C in Q.
+        assert (In (fst s, d_name d) (map fst recs)) as Hin.
+        { rewrite Hkeys. apply in_prod; assumption. }
+        apply in_map_iff in Hin. destruct Hin as [[[s1 d1] c] [E Hin]]. cbn in E. inversion E; subst.
+        exists c. exact Hin.
+    - exfalso. apply load_none in El. destruct El as [s [d [P [Q R]]]].
+      destruct (Hgrid s d P Q) as [t [A B]]. specialize (Hrec t it A Hr). rewrite B in Hrec. congruence.
+  Qed.
+End Load.
+
+(* ============================================================================================ *)
+(* cross-validation schemes over positions 0..n-1 *)
+
+Lemma complement_in n te x : In x (complement n te) <-> 0 <= x < n /\ ~ In x te.
+Proof.
+  unfold complement. rewrite filter_In, zrange1_in. split.
+  - intros [H1 H2]. split; [exact H1|]. intro Hin. apply mem_in in Hin. rewrite Hin in H2. discriminate.
+  - intros [H1 H2]. split; [exact H1|]. destruct (mem x te) eqn:E; [apply mem_in in E; contradiction|reflexivity].
+Qed.
+
+(* SingleSplit(test_size=t, shuffle=False): an ordered prefix / suffix partition *)
+Lemma single_noshuffle_partition n t : 0 < t < n ->
+  exists tr te, single_noshuffle n t = [(tr, te)] /\ tr ++ te = zrange 0 n 1 /\
+                Z.of_nat (length te) = t /\ Z.of_nat (length tr) = n - t.
+Proof.
+  intro H. exists (zrange 0 (n - t) 1), (zrange (n - t) n 1). split; [reflexivity|].
+  split; [apply zrange_app1; lia|]. rewrite !zrange_length1. lia.
+Qed.
+
+(* PresplitFilesCV: the first fold is the file split: training positions are exactly those
+   labelled "train", test positions exactly those labelled "test" *)
+Lemma positions_where_in b : forall labels i x,
+  In x (positions_where b i labels) <-> exists j : nat, x = i + Z.of_nat j /\ nth_error labels j = Some b.
+Proof.
+  induction labels as [|l r IH]; intros i x; cbn [positions_where].
+  - split; [intros []|]. intros [j [_ H]]. destruct j; discriminate.
+  - assert (In x (positions_where b (i + 1) r) <->
+            exists j : nat, x = i + Z.of_nat (S j) /\ nth_error (l :: r) (S j) = Some b) as Hr.
+    { rewrite IH. split; intros [j [-> Hj]]; exists j; (split; [lia|exact Hj]). }
+    destruct (Bool.eqb l b) eqn:E.
+    + apply Bool.eqb_prop in E. subst l. cbn [In]. rewrite Hr. split.
+      * intros [<-|[j Hj]]; [exists O; split; [lia|reflexivity]|exists (S j); exact Hj].
+      * intros [[|j] [-> Hj]]; [left; lia|right; exists j; split; [reflexivity|exact Hj]].
+    + rewrite Hr. split.
+      * intros [j Hj]. exists (S j). exact Hj.
+      * intros [[|j] [-> Hj]]; [|exists j; split; [reflexivity|exact Hj]].
+        cbn in Hj. inversion Hj. subst l. destruct b; discriminate.
+  Qed.
+Lemma presplit_file_fold labels inner :
+  exists tr te rest, presplit labels inner = (tr, te) :: rest /\
+    (forall x, In x tr <-> exists j : nat, x = Z.of_nat j /\ nth_error labels j = Some true) /\
+    (forall x, In x te <-> exists j : nat, x = Z.of_nat j /\ nth_error labels j = Some false) /\
+    (forall x, 0 <= x < Z.of_nat (length labels) -> (In x tr <-> ~ In x te)).
+Proof.
+  eexists; eexists; eexists. split; [reflexivity|]. split; [|split].
+  - intro x. rewrite positions_where_in. split; intros [j [-> Hj]]; exists j; (split; [lia|exact Hj]).
+  - intro x. rewrite positions_where_in. split; intros [j [-> Hj]]; exists j; (split; [lia|exact Hj]).
+  - intros x Hx. rewrite !positions_where_in.
+    destruct (nth_error labels (Z.to_nat x)) as [b|] eqn:E; [|apply nth_error_None in E; lia].
+    split.
+    + intros [j [-> Hj]] [j' [Hj' Hj2]]. assert (j = j') by lia. subst. congruence.
+    + intro Hn. destruct b.
+      * exists (Z.to_nat x). split; [lia|exact E].
+      * exfalso. apply Hn. exists (Z.to_nat x). split; [lia|exact E].
+Qed.
+
+(* KFold(k, shuffle=False): contiguous blocks; block i starts at i*(n/k) + min(i, n mod k) *)
+Definition kstart (n k i : Z) : Z := i * (n / k) + Z.min i (n mod k).
+
+Lemma kstart_succ n k i : kstart n k (i + 1) = kstart n k i + n / k + (if i <? n mod k then 1 else 0).
+Proof. unfold kstart. destruct (i <? n mod k) eqn:E; lia. Qed.
+Lemma kfold_test_in n k i x : In x (kfold_test n k i) <-> kstart n k i <= x < kstart n k (i + 1).
+Proof. unfold kfold_test. rewrite zrange1_in, kstart_succ. unfold kstart. lia. Qed.
+Lemma kstart_0 n k : 0 < k -> kstart n k 0 = 0.
+Proof. intro Hk. unfold kstart. pose proof (Z.mod_pos_bound n k Hk). lia. Qed.
+Lemma kstart_k n k : 0 < k -> 0 <= n -> kstart n k k = n.
+Proof. intros Hk Hn. unfold kstart. pose proof (Z.mod_pos_bound n k Hk). pose proof (Z.div_mod n k). lia. Qed.
+Lemma kstart_mono n k i j : 0 < k -> 0 <= n -> 0 <= i <= j -> kstart n k i <= kstart n k j.
+Proof.
+  intros Hk Hn Hij. unfold kstart. assert (0 <= n / k) by (apply Z.div_pos; lia).
+  assert (i * (n / k) <= j * (n / k)) by nia. lia.
+Qed.
+
+Lemma kfold_partition n k : 0 < k <= n ->
+  length (kfold n k) = Z.to_nat k /\
+  (forall i, 0 <= i < k ->
+     nth (Z.to_nat i) (kfold n k) ([], []) = (complement n (kfold_test n k i), kfold_test n k i) /\
+     n / k <= Z.of_nat (length (kfold_test n k i)) <= n / k + 1 /\ 0 < n / k) /\
+  (forall x, 0 <= x < n ->
+     exists i, 0 <= i < k /\ In x (kfold_test n k i) /\
+               forall j, 0 <= j < k -> In x (kfold_test n k j) -> j = i) /\
+  (forall i x, 0 <= i < k -> In x (kfold_test n k i) -> 0 <= x < n).
+Proof.
+  intros [Hk Hkn].
+  assert (Hq : 0 < n / k) by (apply Z.div_str_pos; lia).
+  split; [|split; [|split]].
+  - unfold kfold. rewrite map_length. pose proof (zrange_length1 0 k). lia.
+  - intros i Hi. split; [|split; [|exact Hq]].
+    + unfold kfold. set (g := fun i0 => (complement n (kfold_test n k i0), kfold_test n k i0)).
+      rewrite (nth_indep _ ([], []) (g 0)).
+      * rewrite map_nth. rewrite zrange_nth1 by lia. unfold g. repeat f_equal; lia.
+      * rewrite map_length. pose proof (zrange_length1 0 k). lia.
+    + unfold kfold_test. rewrite zrange_length1. destruct (i <? n mod k); lia.
+  - intros x Hx.
+    assert (Hex : forall j, 0 <= j -> forall y, 0 <= y < kstart n k j ->
+              exists i, 0 <= i < j /\ kstart n k i <= y < kstart n k (i + 1)).
+    { apply (natlike_ind (fun j => forall y, 0 <= y < kstart n k j ->
+              exists i, 0 <= i < j /\ kstart n k i <= y < kstart n k (i + 1))).
+      - intros y Hy. rewrite kstart_0 in Hy by lia. lia.
+      - intros j Hj IH y Hy. destruct (Z_lt_le_dec y (kstart n k j)) as [Hlt|Hge].
+        + destruct (IH y (conj (proj1 Hy) Hlt)) as [i [Hi Hb]]. exists i. split; [lia|exact Hb].
+        + exists j. split; [lia|]. replace (j + 1) with (Z.succ j) by lia. lia. }
+    destruct (Hex k (ltac:(lia)) x) as [i [Hi Hb]]; [rewrite kstart_k by lia; exact Hx|].
+    exists i. split; [exact Hi|]. split; [apply kfold_test_in, Hb|].
+    intros j Hj Hin. apply kfold_test_in in Hin.
+    destruct (Z.lt_trichotomy j i) as [Hlt|[Heq|Hgt]]; [|exact Heq|].
+    + pose proof (kstart_mono n k (j + 1) i Hk (ltac:(lia)) (ltac:(lia))). lia.
+    + pose proof (kstart_mono n k (i + 1) j Hk (ltac:(lia)) (ltac:(lia))). lia.
+  - intros i x Hi Hin. apply kfold_test_in in Hin.
+    pose proof (kstart_mono n k 0 i Hk (ltac:(lia)) (ltac:(lia))).
+    pose proof (kstart_mono n k (i + 1) k Hk (ltac:(lia)) (ltac:(lia))).
+    rewrite kstart_0 in * by lia. rewrite kstart_k in * by lia. lia.
+Qed.
